@@ -488,3 +488,51 @@ impl<T> IntoIterator for Sup<T> {
         self.0
     }
 }
+
+// ------------------------------------------------------------------------------------------------
+// Small Copy element types (1 and 2 bytes): code specialised on size_of::<T>() must hold for them too.
+// uid == value (wraps: identities may repeat after 256 / 65536 fresh values, which only weakens the
+// oracle, it cannot make it fire wrongly because the model tracks the same values).
+
+thread_local! {
+    static SM_NEXT: Cell<u32> = const { Cell::new(1) };
+}
+
+macro_rules! small_elem {
+    ($name:ident, $ty:ty, $label:expr) => {
+        #[derive(Clone, Copy, Debug, Default, PartialEq, Eq, PartialOrd, Ord, Hash)]
+        pub struct $name(pub $ty);
+        impl Elem for $name {
+            const NAME: &'static str = $label;
+            const CLONE_KEEPS_UID: bool = true;
+            fn fresh(_key: u32) -> $name {
+                let v = SM_NEXT.with(|c| {
+                    let v = c.get();
+                    c.set(v.wrapping_add(1));
+                    v
+                });
+                $name(v as $ty)
+            }
+            fn uid(&self) -> u64 {
+                self.0 as u64
+            }
+            fn key(&self) -> u32 {
+                (self.0 % 3) as u32
+            }
+            fn rebuild(m: crate::model::Mc) -> $name {
+                $name(m.uid as $ty)
+            }
+            fn copy_call<X: toodee::CopyOps<$name>>(x: &mut X, c: CopyCall<'_, $name>) {
+                match c {
+                    CopyCall::Slice(s) => x.copy_from_slice(s),
+                    CopyCall::Owned(o) => x.copy_from_toodee(o),
+                    CopyCall::View(v) => x.copy_from_toodee(v),
+                    CopyCall::ViewMut(v) => x.copy_from_toodee(v),
+                    CopyCall::Within(a, b, d) => x.copy_within((a, b), d),
+                }
+            }
+        }
+    };
+}
+small_elem!(Sm8, u8, "Sm8");
+small_elem!(Sm16, u16, "Sm16");
